@@ -13,6 +13,21 @@ Proof. exact repair_fix_off. Qed.
 Theorem C11_repair_no_schema : forall oi of_ od fx d, repair oi of_ od fx None d = (d, []).
 Proof. exact repair_no_schema. Qed.
 
+(* the switch at a tool surface (1 octave_validate `fix`, 2 octave_write `lenient`, 3 CLI `--fix`): OMITTED = off (default
+   read by the translator from the only binding of the switch), explicit value wins; with the switch omitted or false
+   nothing changes and nothing is logged.  Profile and the other arguments are not inputs of the model: the translator
+   fails closed if anything else binds the switch or a repair() call is not under `if <switch> ...` *)
+Theorem C11_switch_omitted_is_off : forall surface, surface_flag surface None = false.
+Proof. exact surface_flag_omitted. Qed.
+Theorem C11_switch_explicit_wins : forall surface b, surface_flag surface (Some b) = b.
+Proof. exact surface_flag_explicit. Qed.
+Theorem C11_repair_switch_omitted : forall oi of_ od surface sch d,
+  repair oi of_ od (surface_flag surface None) sch d = (d, []).
+Proof. exact repair_switch_omitted. Qed.
+Theorem C11_repair_switch_false : forall oi of_ od surface sch d,
+  repair oi of_ od (surface_flag surface (Some false)) sch d = (d, []).
+Proof. exact repair_switch_false. Qed.
+
 (* keys, nesting, order, block targets, section ids/annotations, comments: unchanged *)
 Theorem C11_repair_shape : forall oi of_ od fx sch d, map shape (fst (repair oi of_ od fx sch d)) = map shape d.
 Proof. exact repair_shape. Qed.
@@ -216,4 +231,21 @@ Theorem C11_pin_call_sites :
 Proof.
   exact (conj pin_repair_src_validate_fix_stage (conj pin_repair_src_write_repair_stage
         (conj pin_repair_src_write_meta_repair_stage pin_repair_src_cli_fix_stage))).
+Qed.
+
+(* what switches repair on: defaults consumed by the model, the single bindings, the gates of every repair() call, the
+   CLI option, and BaseTool.validate_parameters (returns the caller's dict unchanged) *)
+Theorem C11_pin_switches :
+  (repair_validate_fix_default = 0 /\ repair_write_lenient_default = 0 /\ repair_cli_fix_default = 0) /\
+  repair_validate_fix_binding = pinned_repair_validate_fix_binding /\
+  repair_validate_repair_gates = pinned_repair_validate_repair_gates /\
+  repair_write_lenient_binding = pinned_repair_write_lenient_binding /\
+  repair_write_repair_gates = pinned_repair_write_repair_gates /\
+  repair_cli_fix_option = pinned_repair_cli_fix_option /\
+  repair_cli_repair_gates = pinned_repair_cli_repair_gates /\
+  repair_src_validate_parameters = pinned_repair_src_validate_parameters.
+Proof.
+  exact (conj repair_switch_defaults_pin (conj pin_repair_validate_fix_binding (conj pin_repair_validate_repair_gates
+        (conj pin_repair_write_lenient_binding (conj pin_repair_write_repair_gates (conj pin_repair_cli_fix_option
+        (conj pin_repair_cli_repair_gates pin_repair_src_validate_parameters))))))).
 Qed.
